@@ -290,8 +290,21 @@ def check_cif(case, ctx, tmp):
     elif how == "path+blockname":
         b.CIFread(p, cifblkname=case["blockname"])
     elif how == "open-then-read(cifblk)":
-        blk = b.CIFopen(ciffile=p)
-        b.CIFread(cifblk=blk)
+        if case["mult_key"] % 2 == 0:
+            # the reader object had another file open before (a decoy with another cell and atom); the block handed over
+            # explicitly is the one that must be read
+            decoy = os.path.join(os.path.dirname(p), "decoy.cif")
+            with open(decoy, "w") as fh:
+                fh.write("data_decoy\n_cell_length_a 3.1\n_cell_length_b 3.2\n_cell_length_c 3.3\n_cell_angle_alpha 90\n_cell_angle_beta 90\n"
+                         "_cell_angle_gamma 90\n_symmetry_space_group_name_H-M 'P 1'\nloop_\n_atom_site_label\n_atom_site_type_symbol\n"
+                         "_atom_site_fract_x\n_atom_site_fract_y\n_atom_site_fract_z\nZz1 Fe 0.1 0.2 0.3\n")
+            blk = structure.build_atomlist().CIFopen(ciffile=p)
+            b.CIFopen(ciffile=decoy)
+            b.CIFread(cifblk=blk)
+            ctx.event("cif/reader-had-another-file-open-before")
+        else:
+            blk = b.CIFopen(ciffile=p)
+            b.CIFread(cifblk=blk)
     elif how == "open(blockname)-then-read()":
         b.CIFopen(ciffile=p, cifblkname=case["blockname"])
         b.CIFread()
